@@ -56,19 +56,23 @@ def to_tla_consts(c):
 
 # ------------------------------------------------------------------------------------------------------------------
 def make_cassette(config):
-    """returns (writer, reader factory, cleanup)"""
+    """returns (writer, reader factory, cleanup); writer.verif_sibling() makes a writable sibling cassette (another
+    in-memory cassette / another directory / another key prefix of the same bucket)"""
     if config == 'memory':
         from playback.tape_cassettes.in_memory.in_memory_tape_cassette import InMemoryTapeCassette
         c = InMemoryTapeCassette()
+        c.verif_sibling = InMemoryTapeCassette
         return c, (lambda: c), (lambda: None)
     if config == 'file':
         from playback.tape_cassettes.file_based.file_based_tape_cassette import FileBasedTapeCassette
         d = tempfile.mkdtemp(prefix='pbverif-store-')
         c = FileBasedTapeCassette(d)
+        c.verif_sibling = lambda: FileBasedTapeCassette(os.path.join(d, 'sibling-suite'))
         return c, (lambda: FileBasedTapeCassette(d)), (lambda: shutil.rmtree(d, ignore_errors=True))
     if config.startswith('s3:'):
         from .fake_boto3 import make_s3_cassette, reopen_s3_cassette
         c = make_s3_cassette(key_prefix=config[3:], read_only=False)
+        c.verif_sibling = lambda: reopen_s3_cassette(c, key_prefix=(config[3:] + '_suite') if config[3:] else 'suite')
         return c, (lambda: reopen_s3_cassette(c, read_only=True)), (lambda: None)
     raise KeyError(config)
 
@@ -332,6 +336,36 @@ class StoreDriver(object):
                         saved[e['id'] - 1][1].update(added)
                     except Exception as ex:  # noqa
                         mm('save', idx, 'saved again', repr(ex), 'saving a fetched recording again under its id failed')
+                elif k == 'promote':
+                    # copy into a sibling cassette with added metadata; this cassette keeps what it had (looked at through
+                    # the same reader before and after, and through a new one)
+                    rid = ids[e['id'] - 1]
+                    data, pm = saved[e['id'] - 1]
+                    try:
+                        before = dict(reader.get_recording_metadata(rid))
+                        sibling = writer.verif_sibling()
+                        copy_ = (reader_factory() if self.config != 'memory' else writer).get_recording(rid)
+                        added = py_meta(e['meta'])
+                        added['promoted-into'] = 'suite'
+                        copy_.add_metadata(added)
+                        sibling.save_recording(copy_)
+                        merged = dict(pm)
+                        merged.update(added)
+                        theirs = dict(sibling.get_recording_metadata(rid))
+                        if not same_value(theirs, merged):
+                            mm('roundtrip', idx, merged, theirs, 'metadata of the copy saved into the sibling cassette')
+                        for rd in (reader, reader_factory()):
+                            alone = dict(rd.get_recording_metadata(rid))
+                            full = dict(rd.get_recording(rid).get_metadata())
+                            if not same_value(alone, pm) or not same_value(full, pm) or not same_value(before, pm):
+                                mm('roundtrip', idx, pm, (alone, full),
+                                   'metadata of a stored recording after a copy of it was saved into a sibling cassette '
+                                   '(fetched alone / with the recording)')
+                        sib_ids = list(sibling.iter_recording_ids(e['cat']))
+                        if sib_ids != [rid]:
+                            mm('list', idx, [rid], sib_ids, 'ids listed by the sibling cassette after one recording was copied into it')
+                    except Exception as ex:  # noqa
+                        mm('save', idx, 'copied into a sibling cassette', repr(ex), 'saving a fetched recording into a sibling cassette failed')
                 elif k == 'failsave':
                     from .values import UnsavableResult
                     r = writer.create_new_recording(e['cat'])
